@@ -170,7 +170,11 @@ func buildWorld(c *Case) (*world, error) {
 			continue
 		}
 		mh := w.m.AddHost(h.Name)
-		mh.Feat.MountGrant = true
+		mh.Feat.MountGrant = !h.NoMountGrant
+		switch h.AnonMount {
+		case 201, 405:
+			mh.Feat.AnonMountStatus = h.AnonMount
+		}
 		mh.Feat.TagDelete = true
 		mh.Feat.TagListNoRepo404 = true
 		mh.Feat.Referrers = h.Referrers
